@@ -40,10 +40,12 @@ class Report:
         self.bound = ""
         self.rule = ""
         self.t0 = time.time()
+        self.last = None
 
     def case(self, check, case, nontrivial=True):
         """count one evaluated case"""
         self.evaluations += 1
+        self.last = (check, case)
         self.checks[check] = self.checks.get(check, 0) + 1
         if nontrivial:
             h = hashlib.sha1(json.dumps(tolist(case), sort_keys=True, default=str).encode()).hexdigest()
@@ -95,8 +97,18 @@ def main():
         else:
             mod.run(a.tier, rng, rep)
         rep.dump(a.out)
-    except Exception:
+    except (TypeError, KeyError, NameError, AttributeError, ImportError):
+        # most likely the stand-in itself (or an interface it relies on) is broken: a checker error, not a verdict
         rep.dump(a.out, error=traceback.format_exc())
+    except Exception as exc:
+        # the code under test raised on an explored input (IndexError / ZeroDivisionError / AssertionError / ValueError / a Numba
+        # compilation error ...): the exploration found an input on which the operation does not deliver a result at all
+        tb = traceback.format_exc()
+        check, case = rep.last if rep.last else (a.pid.lower(), {})
+        rep.violations.insert(0, {"check": f"{check}.exception", "func": None, "case": tolist(case),
+                                  "what": f"the code under test raised {type(exc).__name__}: {str(exc)[:200]} (last case counted before the call; traceback tail: {tb[-600:]})",
+                                  "tags": ["exception"]})
+        rep.dump(a.out)
 
 
 if __name__ == "__main__":
